@@ -61,13 +61,13 @@ def check_spaced_doc(nodes, src_unused, case, res):
 
 
 def plan(ctx):
-    L = ctx.pick(3, 4)
+    L = 3
     return [
         ('shard_enum', [('tok', 'A_TOK', L, i, 48) for i in range(48)] +
                        [('cat', 'A_CAT', ctx.pick(3, 4), i, 32) for i in range(32)] +
-                       ([('tokcore', 'A_TOK_CORE', 5, i, 96) for i in range(96)] if ctx.thorough else [])),
+                       ([('tokcore', 'A_TOK_CORE', 4, i, 96) for i in range(96)] if ctx.thorough else [])),
         ('shard_random', [('rnd', ctx.pick(1500, 40000), i) for i in range(16)]),
-        ('shard_mutations', [('mut', ctx.pick(4, 150), i) for i in range(16)]),
+        ('shard_mutations', [('mut', ctx.pick(4, 40), i) for i in range(16)]),
         ('shard_spaced', [('spaced', ctx.pick(400, 10000), i) for i in range(16)]),
     ]
 
